@@ -30,11 +30,23 @@ import (
 )
 
 type Clause struct {
-	Expr  string
-	Props []string
-	Label string
-	File  string
-	Line  int
+	Expr    string
+	Props   []string
+	Variant string // proved only in this verification variant (callers get "variant-condition ==> clause")
+	Label   string
+	File    string
+	Line    int
+}
+
+// variantExpr returns the condition of a named variant.
+func (fc *FuncContract) variantExpr(name string) string {
+	for _, v := range fc.Lists["variant"] {
+		i := strings.Index(v.Expr, ":")
+		if i >= 0 && strings.TrimSpace(v.Expr[:i]) == name {
+			return strings.TrimSpace(v.Expr[i+1:])
+		}
+	}
+	return ""
 }
 
 type LoopContract struct {
@@ -56,6 +68,7 @@ type FuncContract struct {
 	Modifies []string
 	HasMod   bool
 	Loops    map[int]*LoopContract
+	VLoops   map[string]map[int]*LoopContract // variant-specific loop clauses
 	Trusted  bool
 	Inline   bool
 	Boundary bool
@@ -67,6 +80,7 @@ type FuncContract struct {
 	Uses     []string
 	Scenario map[string][]string // param -> list of Go type expressions
 	Assumes  []Clause
+	Lists    map[string][]Clause // other keyword -> clauses (atomic_inv, guarantee, observe, ...)
 }
 
 type Lemma struct {
@@ -87,7 +101,7 @@ type ContractSet struct {
 }
 
 var funcHdrRe = regexp.MustCompile(`^func\s+(\(([^)]*)\)\s*)?([A-Za-z_][A-Za-z0-9_$.]*)`)
-var clauseRe = regexp.MustCompile(`^([a-z_]+)(\[([A-Z0-9, ]+)\])?(\s+|$)(.*)$`)
+var clauseRe = regexp.MustCompile(`^([a-z_]+)(\[([A-Za-z0-9_@, ]+)\])?(\s+|$)(.*)$`)
 
 func parseRecv(r string) string {
 	r = strings.TrimSpace(r)
@@ -162,7 +176,7 @@ func (cs *ContractSet) parseFile(path, pkgPath string) error {
 			if m[2] != "" {
 				key = "(" + parseRecv(m[2]) + ")." + m[3]
 			}
-			cur = &FuncContract{Key: key, Loops: map[int]*LoopContract{}, File: path, Line: pendLine, Flags: map[string]string{}, Scenario: map[string][]string{}}
+			cur = &FuncContract{Key: key, Loops: map[int]*LoopContract{}, File: path, Line: pendLine, Flags: map[string]string{}, Scenario: map[string][]string{}, Lists: map[string][]Clause{}, VLoops: map[string]map[int]*LoopContract{}}
 			curLemma = nil
 			full := pkgPath + "::" + key
 			if _, dup := cs.Funcs[full]; dup {
@@ -212,14 +226,27 @@ func (cs *ContractSet) parseFile(path, pkgPath string) error {
 			if i < 0 {
 				return fmt.Errorf("%s:%d: bad loop clause", path, ln)
 			}
-			n, err := strconv.Atoi(strings.TrimSpace(rest[:i]))
+			lid := strings.TrimSpace(rest[:i])
+			variant := ""
+			if at := strings.Index(lid, "@"); at >= 0 {
+				variant = lid[at+1:]
+				lid = lid[:at]
+			}
+			n, err := strconv.Atoi(lid)
 			if err != nil {
 				return fmt.Errorf("%s:%d: bad loop ordinal", path, ln)
 			}
-			lc := cur.Loops[n]
+			loops := cur.Loops
+			if variant != "" {
+				if cur.VLoops[variant] == nil {
+					cur.VLoops[variant] = map[int]*LoopContract{}
+				}
+				loops = cur.VLoops[variant]
+			}
+			lc := loops[n]
 			if lc == nil {
 				lc = &LoopContract{}
-				cur.Loops[n] = lc
+				loops[n] = lc
 			}
 			cl := strings.TrimSpace(rest[i+1:])
 			m := clauseRe.FindStringSubmatch(cl)
@@ -264,7 +291,15 @@ func (cs *ContractSet) parseFile(path, pkgPath string) error {
 		case "requires":
 			cur.Requires = append(cur.Requires, Clause{Expr: arg, Props: props, File: path, Line: pendLine})
 		case "ensures":
-			cur.Ensures = append(cur.Ensures, Clause{Expr: arg, Props: props, File: path, Line: pendLine})
+			cl := Clause{Expr: arg, File: path, Line: pendLine}
+			for _, p := range props {
+				if strings.HasPrefix(p, "@") {
+					cl.Variant = p[1:]
+				} else {
+					cl.Props = append(cl.Props, p)
+				}
+			}
+			cur.Ensures = append(cur.Ensures, cl)
 		case "assume":
 			cur.Assumes = append(cur.Assumes, Clause{Expr: arg, Props: props, File: path, Line: pendLine})
 		case "modifies":
@@ -296,6 +331,7 @@ func (cs *ContractSet) parseFile(path, pkgPath string) error {
 			cur.Uses = append(cur.Uses, arg)
 		default:
 			cur.Flags[kw] = arg
+			cur.Lists[kw] = append(cur.Lists[kw], Clause{Expr: arg, Props: props, File: path, Line: pendLine})
 		}
 	}
 	return nil
